@@ -3224,8 +3224,14 @@ where
             }
         }
 
-        // Keep the populated index for subsequent incremental insertions.
-        self.spatial_index = grid_index;
+        // Keep the populated index for subsequent incremental insertions - unless its cells are
+        // smaller than the insertion-time duplicate tolerance (epsilon dedup with a tiny tolerance).
+        // The 3^D neighbourhood of such cells does not cover the tolerance ball, so a later
+        // near-duplicate would be missed; dropping the index lets the next insertion rebuild it
+        // with the right cell size.
+        let insertion_tolerance: K::Scalar =
+            <K::Scalar as NumCast>::from(1e-10_f64).unwrap_or_else(K::Scalar::default_tolerance);
+        self.spatial_index = grid_index.filter(|grid| grid.cell_size() >= insertion_tolerance);
 
         Ok(())
     }
